@@ -6,6 +6,7 @@ CONSTANTS
   DurModes = {"per"}
   CtsModes = {"none", "v0", "v1neg"}
   TfdtVs = {0}
+  Orders = {"asc"}
   TrexPerTrack = FALSE
   MdatFirsts = {TRUE}
   Deliveries = {"one", "split"}
